@@ -4,6 +4,7 @@
 #![allow(unused_imports, unused_variables, dead_code, non_snake_case)]
 use vstd::prelude::*;
 use vstd::std_specs::convert::*;
+use std::sync::Arc;
 verus! {
 
 //@ include inc/bytes_order.rs
@@ -83,6 +84,149 @@ fn canary_fjall_encode_lp<K: Encode>(x: &Impl, key: &K, buffer: &mut Vec<u8>)
     x.encode_value_length_prefixed(key, buffer);
     assert(false);
 }
+
+
+// ================================================================ the operations layer (as for RocksDB): which backend
+// operation each trait method issues, on which keyspace, with which key / value bytes; direct and recorded path agree
+//@ enum crates/storage/src/kv_database/fjall.rs :: ColumnKind
+#[derive(Clone, Copy, PartialEq, Eq, Structural)]
+//@ end
+
+/// the key under which (column W, value type C, key k) lives (fjall: an empty key image is padded)
+pub open spec fn wide_key<W: WideColumn, C: WideColumnValue<W>>(k: &W::Key) -> Seq<u8> {
+    if W::enc() == DiscriminantEncoding::Prefixed { C::disc().bytes() + pad(k.bytes()) } else { pad(k.bytes()) + C::disc().bytes() }
+}
+/// the key under which member e of the set of k lives
+pub open spec fn member_key<C: KeyOfSetColumn>(k: &C::Key, e: &C::Element) -> Seq<u8> { lp(k.bytes()) + e.bytes() }
+
+//@ include inc/c11_ops.rs
+
+pub type Keyspace = Handle;
+pub mod fjall {
+    use super::*;
+    /// interface stand-in for fjall::OwnedWriteBatch: an ordered log of operations (atomic application at commit: trusted backend)
+    #[verifier::external_body]
+    pub struct OwnedWriteBatch { _p: u8 }
+    impl OwnedWriteBatch {
+        pub uninterp spec fn ops(&self) -> Seq<BOp>;
+        #[verifier::external_body]
+        pub fn insert<K: AsBytes, V: AsBytes>(&mut self, ks: &Handle, key: K, value: V)
+            ensures final(self).ops() == old(self).ops().push(BOp::Put { ty: ks.ty(), kind: ks.kind(), key: key.seq(), value: value.seq() })
+        { unimplemented!() }
+        #[verifier::external_body]
+        pub fn remove<K: AsBytes>(&mut self, ks: &Handle, key: K)
+            ensures final(self).ops() == old(self).ops().push(BOp::Del { ty: ks.ty(), kind: ks.kind(), key: key.seq() })
+        { unimplemented!() }
+    }
+}
+impl Impl {
+    /// get_or_create_keyspace (DashMap cache + fjall handles: not under contract): the handle names the keyspace of (type id, kind)
+    #[verifier::external_body]
+    pub fn get_or_create_keyspace<C: Identifiable>(&self, kind: ColumnKind) -> (r: Keyspace)
+        ensures r.ty() == C::STABLE_TYPE_ID, r.kind() == kind
+    { unimplemented!() }
+}
+
+//@ enum crates/storage/src/kv_database/fjall.rs :: Operation
+//@ struct crates/storage/src/kv_database/fjall.rs :: FjallWriteBatch
+//@ struct crates/storage/src/kv_database/fjall.rs :: FjallSerializationBuffer
+//@ const crates/storage/src/kv_database/fjall.rs :: BATCH_SIZE
+
+pub open spec fn replayed(op: &Operation) -> BOp {
+    match op {
+        Operation::WideColumnPut { cf, key, value } => BOp::Put { ty: cf.ty(), kind: cf.kind(), key: key@, value: value@ },
+        Operation::WideColumnDelete { cf, key } => BOp::Del { ty: cf.ty(), kind: cf.kind(), key: key@ },
+        Operation::InsertMember { cf, key } => BOp::Put { ty: cf.ty(), kind: cf.kind(), key: key@, value: Seq::empty() },
+        Operation::DeleteMember { cf, key } => BOp::Del { ty: cf.ty(), kind: cf.kind(), key: key@ },
+    }
+}
+pub open spec fn replayed_all(ops: Seq<Operation>) -> Seq<BOp> { Seq::new(ops.len(), |i: int| replayed(&ops[i])) }
+pub open spec fn op_cost(op: &Operation) -> nat {
+    match op {
+        Operation::WideColumnPut { cf, key, value } => key@.len() + value@.len(),
+        Operation::WideColumnDelete { cf, key } => key@.len(),
+        Operation::InsertMember { cf, key } => key@.len(),
+        Operation::DeleteMember { cf, key } => key@.len(),
+    }
+}
+pub open spec fn ops_cost(ops: Seq<Operation>) -> nat
+    decreases ops.len()
+{
+    if ops.len() == 0 { 0 } else { ops_cost(ops.drop_last()) + op_cost(&ops.last()) }
+}
+pub proof fn lemma_ops_cost_take(ops: Seq<Operation>, i: int)
+    requires 0 <= i < ops.len()
+    ensures ops_cost(ops.take(i + 1)) == ops_cost(ops.take(i)) + op_cost(&ops[i]), ops_cost(ops.take(i + 1)) <= ops_cost(ops)
+    decreases ops.len() - i
+{
+    assert(ops.take(i + 1).drop_last() =~= ops.take(i));
+    if i + 1 < ops.len() { lemma_ops_cost_take(ops, i + 1); } else { assert(ops.take(i + 1) =~= ops); }
+}
+
+//@ impl crates/storage/src/kv_database/fjall.rs :: impl WriteBatch for FjallWriteBatch
+//@ extra
+    type SerializationBuffer = FjallSerializationBuffer;
+    open spec fn est(&self) -> nat { self.bytes_written as nat }
+    open spec fn cost(buffer: &FjallSerializationBuffer) -> nat { ops_cost(buffer.operations@) }
+//@ member consume_serialization_buffer
+//@ sig
+        ensures final(self).batch.ops() =~= old(self).batch.ops() + replayed_all(buffer.operations@)
+//@ head
+        let ghost ops = buffer.operations@;
+        proof { assert(ops.take(0) =~= Seq::<Operation>::empty()); }
+//@ loop 0 iter __it
+//@ loop 0 inv
+            invariant
+                ops == buffer.operations@,
+                self.batch.ops() =~= old(self).batch.ops() + replayed_all(ops.take(__it.index@ as int)),
+                self.bytes_written as nat == old(self).bytes_written as nat + ops_cost(ops.take(__it.index@ as int)),
+                old(self).bytes_written as nat + ops_cost(ops) <= usize::MAX,
+//@ loop 0 head
+            proof {
+                let i = __it.index@ as int;
+                lemma_ops_cost_take(ops, i);
+                assert(replayed_all(ops.take(i + 1)) =~= replayed_all(ops.take(i)).push(replayed(&ops[i])));
+            }
+//@ loop 0 after
+        proof { assert(ops.take(ops.len() as int) =~= ops); }
+//@ member put
+//@ sig
+        ensures final(self).batch.ops() == old(self).batch.ops().push(BOp::Put {
+            ty: W::STABLE_TYPE_ID, kind: ColumnKind::WideColumn, key: wide_key::<W, C>(key), value: value.bytes() })
+//@ member delete
+//@ sig
+        ensures final(self).batch.ops() == old(self).batch.ops().push(BOp::Del {
+            ty: W::STABLE_TYPE_ID, kind: ColumnKind::WideColumn, key: wide_key::<W, C>(key) })
+//@ member insert_member
+//@ sig
+        ensures final(self).batch.ops() == old(self).batch.ops().push(BOp::Put {
+            ty: C::STABLE_TYPE_ID, kind: ColumnKind::KeyOfSet, key: member_key::<C>(key, value), value: Seq::empty() })
+//@ member delete_member
+//@ sig
+        ensures final(self).batch.ops() == old(self).batch.ops().push(BOp::Del {
+            ty: C::STABLE_TYPE_ID, kind: ColumnKind::KeyOfSet, key: member_key::<C>(key, value) })
+//@ member should_write_more
+//@ end
+
+//@ impl crates/storage/src/kv_database/fjall.rs :: impl SerializationBuffer for FjallSerializationBuffer
+//@ member put
+//@ sig
+        ensures replayed_all(final(self).operations@) =~= replayed_all(old(self).operations@).push(BOp::Put {
+            ty: W::STABLE_TYPE_ID, kind: ColumnKind::WideColumn, key: wide_key::<W, C>(key), value: value.bytes() })
+//@ member delete
+//@ sig
+        ensures replayed_all(final(self).operations@) =~= replayed_all(old(self).operations@).push(BOp::Del {
+            ty: W::STABLE_TYPE_ID, kind: ColumnKind::WideColumn, key: wide_key::<W, C>(key) })
+//@ member insert_member
+//@ sig
+        ensures replayed_all(final(self).operations@) =~= replayed_all(old(self).operations@).push(BOp::Put {
+            ty: C::STABLE_TYPE_ID, kind: ColumnKind::KeyOfSet, key: member_key::<C>(key, value), value: Seq::empty() })
+//@ member delete_member
+//@ sig
+        ensures replayed_all(final(self).operations@) =~= replayed_all(old(self).operations@).push(BOp::Del {
+            ty: C::STABLE_TYPE_ID, kind: ColumnKind::KeyOfSet, key: member_key::<C>(key, value) })
+//@ end
+
 
 } // verus!
 fn main() {}
